@@ -111,6 +111,10 @@ Section WS.
     match t with [] => false | c :: _ => negb (ws c) && negb (ws (last t 0)) end.
 End WS.
 
+(* str.strip(" ") *)
+Definition is_sp (c : Z) : bool := c =? 32.
+Definition sstrip := gstrip is_sp.
+Definition sends_ok := gends_ok is_sp.
 Definition usplit := gsplit is_uws.     (* str.split() *)
 Definition ustrip := gstrip is_uws.     (* str.strip() *)
 Definition utok_ok := gtok_ok is_uws.
